@@ -690,6 +690,214 @@ def struct_in_c(p):
     yield q, [i + 1, i + 2, i + 3, i + 4]
 
 
+# ------------------------------------------------------------------ second batch (DESIGN 4.2 numbers 15-17, 25, 29, 39, 42, 54, 62, 63, 65, 71, 73, 75, 78, 80)
+@op("15_mixed_space_tab", "MIXED_SPACE_TAB")
+def mixed_space_tab(p):
+    for i in spread_by_kind(p, lines_of(p, "stmt", "ctrl")):
+        k, n = _indent_parts(p.lines[i])
+        if k is None or n < 1:
+            continue
+        q = mod_line(p, i, ["\t" * n + " "] + p.lines[i].parts[1:])
+        if fits(q, i):
+            yield q, [i + 1]
+
+
+@op("16_operator_at_end_of_line", "EOL_OPERATOR")
+def eol_operator(p):
+    for i, k in spread(_binop_sites(p)):
+        l = p.lines[i]
+        d = l.depth
+        parts = list(l.parts)
+        first = l.copy()
+        first.parts = parts[:k + 1]                      # ... a +
+        second = Line(["\t" * (d + 1)] + parts[k + 2:], "cont", d + 1, l.func)
+        q = clone_with(p, i, [first, second])
+        yield q, [i + 1, i + 2]
+
+
+@op("17_comma_at_start_of_line", "COMMA_START_LINE")
+def comma_start(p):
+    for i, k in spread([(i, k) for i, k in _comma_sites(p) if p.lines[i].kind == "stmt"]):
+        l = p.lines[i]
+        parts = list(l.parts)
+        first = l.copy()
+        first.parts = parts[:k]
+        second = Line(["\t" * (l.depth + 1), ", "] + parts[k + 1:], "cont", l.depth + 1, l.func)
+        yield clone_with(p, i, [first, second]), [i + 1, i + 2]
+
+
+@op("25_variable_length_array", "VLA_FORBIDDEN")
+def vla(p):
+    for i in spread(lines_of(p, "decl")):
+        parts = list(p.lines[i].parts)
+        if parts[-1] == ";" and "[" not in parts:
+            q = mod_line(p, i, parts[:-1] + ["[nn];"])
+            if fits(q, i):
+                yield q, [i + 1]
+
+
+@op("29_space_after_pointer_star", "SPC_AFTER_POINTER")
+def space_after_star(p):
+    for i in spread(lines_of(p, "decl")):
+        parts = list(p.lines[i].parts)
+        for k, x in enumerate(parts):
+            if x in ("*", "**"):
+                parts[k] = x + " "
+                q = mod_line(p, i, parts)
+                if fits(q, i):
+                    yield q, [i + 1]
+                break
+
+
+@op("39_misaligned_prototype", "MISALIGNED_FUNC_DECL")
+def misaligned_proto(p):
+    protos = lines_of(p, "proto")
+    if len(protos) < 2:
+        return
+    for i in protos[1:2] + protos[-1:]:
+        k = _decl_tab_part(p.lines[i])
+        if k is None:
+            continue
+        parts = list(p.lines[i].parts)
+        parts[k] = parts[k] + "\t"
+        q = mod_line(p, i, parts)
+        if fits(q, i):
+            yield q, [i + 1]
+
+
+@op("42_switch", "FORBIDDEN_CS")
+def switch(p):
+    for q, ls in _insert_stmt(p, ["switch (zz)"], kind="ctrl"):
+        i = ls[0] - 1
+        f = q.lines[i].func
+        q.lines[i + 1:i + 1] = [Line(["\t{"], "lbrace", 1, f), Line(["\t\tcase 1:"], "stmt", 2, f),
+                                Line(["\t\t\tbreak ;"], "stmt", 3, f), Line(["\t}"], "rbrace", 1, f)]
+        yield q, [i + 1, i + 3]
+
+
+@op("54_control_statement_at_file_scope", "WRONG_SCOPE")
+def control_at_file_scope(p):
+    if not p.name.endswith(".c"):
+        return
+    for i in lines_of(p, "func_sig")[:1]:
+        q = p.clone()
+        q.lines[i:i] = [Line(["if (1)"], "ctrl"), Line(["\tzz = 1;"], "stmt", 1), Line([""], "blank")]
+        yield q, [i + 1]
+
+
+def _unop_sites(p):
+    out = []
+    for i in lines_of(p, "stmt", "ctrl"):
+        for k, x in enumerate(p.lines[i].parts):
+            if isinstance(x, Slot) and x.kind == "unop1":
+                out.append((i, k))
+    return out
+
+
+@op("62_space_after_unary_operator", "SPC_AFTER_OPERATOR", "SPC_AFTER_POINTER")
+def space_after_unary(p):
+    for i, k in spread(_unop_sites(p)):
+        parts = list(p.lines[i].parts)
+        if parts[k].default == "!":
+            continue                      # '! a' is not enforced by the tool: outside the catalogue
+        hint = f"unop:{'ptr' if parts[k].default in '*&' else 'arith'}"
+        parts[k:k + 1] = [parts[k], " "]
+        q = mod_line(p, i, parts)
+        if fits(q, i):
+            yield q, [i + 1], hint
+
+
+@op("63_assignment_without_spaces", "SPC_BFR_OPERATOR", "SPC_AFTER_OPERATOR")
+def assign_no_spaces(p):
+    for i in spread([i for i in lines_of(p, "stmt") if p.lines[i].meta.get("stmt") == "assign" and " = " in p.lines[i].parts]):
+        parts = list(p.lines[i].parts)
+        k = parts.index(" = ")
+        nxt = parts[k + 1] if k + 1 < len(parts) else None
+        if isinstance(nxt, Slot) and nxt.kind in ("unop1", "incdec"):
+            continue
+        parts[k] = "="
+        yield mod_line(p, i, parts), [i + 1]
+
+
+@op("65_comment_inside_statement", "COMMENT_ON_INSTR")
+def comment_in_statement(p):
+    for i in spread([i for i in lines_of(p, "stmt") if p.lines[i].meta.get("stmt") == "assign" and " = " in p.lines[i].parts]):
+        parts = list(p.lines[i].parts)
+        k = parts.index(" = ")
+        parts[k] = " = /* c */ "
+        q = mod_line(p, i, parts)
+        if fits(q, i):
+            yield q, [i + 1]
+
+
+@op("71a_include_without_space", "PREPROC_NO_SPACE")
+def include_no_space(p):
+    if p.name.endswith(".c"):
+        q, ln = _add_directive(p, '#include"glued.h"')
+        yield q, [ln]
+
+
+@op("71b_include_two_spaces", "CONSECUTIVE_WS")
+def include_two_spaces(p):
+    if p.name.endswith(".c"):
+        q, ln = _add_directive(p, '#include  "wide.h"')
+        yield q, [ln]
+
+
+@op("73a_directive_not_indented_in_guard", "PREPROC_BAD_INDENT")
+def directive_not_indented(p):
+    if not p.name.endswith(".h"):
+        return
+    for i in lines_of(p, "guard_define"):
+        q = p.clone()
+        q.lines.insert(i + 2, Line(["#define FLAT 1"], "define"))
+        q.lines.insert(i + 3, Line([""], "blank"))
+        yield q, [i + 3]
+
+
+@op("73b_directive_indented_too_much", "TOO_MANY_WS")
+def directive_too_indented(p):
+    if not p.name.endswith(".h"):
+        return
+    for i in lines_of(p, "guard_define"):
+        q = p.clone()
+        q.lines.insert(i + 2, Line(["#  define DEEP 1"], "define"))
+        q.lines.insert(i + 3, Line([""], "blank"))
+        yield q, [i + 3]
+
+
+@op("75_endif_without_if", "PREPROC_BAD_ENDIF")
+def stray_endif(p):
+    if p.name.endswith(".c"):
+        q, ln = _add_directive(p, "#endif")
+        yield q, [ln]
+
+
+@op("78_typedef_without_prefix", "USER_DEFINED_TYPEDEF")
+def typedef_no_prefix(p):
+    if not p.name.endswith(".h"):
+        return
+    for i in lines_of(p, "utype_close"):
+        for x in p.lines[i].parts:
+            if isinstance(x, Slot) and x.kind == "pid:t_":
+                yield _rename(p, x, "x" + x.default[1:]), [i + 1]
+
+
+@op("80_struct_in_function", "TYPE_NOT_GLOBAL")
+def struct_in_function(p):
+    for c in lines_of(p, "func_open")[:2]:
+        f = p.lines[c].func
+        ndecl = sum(1 for l in p.lines if l.func == f and l.kind == "decl")
+        nbody = sum(1 for l in p.lines if l.func == f and l.kind not in ("func_sig", "func_open", "func_close"))
+        if nbody > 20:
+            continue
+        q = p.clone()
+        new = [Line(["\tstruct s_in"], "utype_open", 1, f), Line(["\t{"], "utype_lbrace", 1, f),
+               Line(["\t\tint\tx;"], "member", 2, f), Line(["\t};"], "utype_close", 1, f)]
+        q.lines[c + 1:c + 1] = new
+        yield q, [c + 2, c + 3, c + 5]
+
+
 def _desc(x):
     if x is None:
         return "-"
